@@ -1,1 +1,289 @@
-// placeholder
+//! Hooked into `crates/step_sim/src/env.rs` (child module: sees `Env`'s private fields).
+//!
+//! One `Env::step` from an arbitrary environment state with a symbolic generator (C08, C10, C11,
+//! C05's over-full step) and the submission API (C10, C12).
+#![allow(dead_code)]
+#![allow(clippy::all)]
+use super::*;
+use crate::verif::*;
+use bourse_book::verif::book::*;
+#[allow(unused_imports)]
+use bourse_book::verif::src::*;
+use bourse_book::{vcheck, vcover, vharnesses};
+use rand::seq::SliceRandom;
+
+impl<const L: usize> Env<L> {
+    /// assemble an environment around a given book (harness constructor; the cached level-2 data
+    /// is what `Env::new` / `step` would have stored: the live book's)
+    pub fn verif_from_book(step_size: Nanos, order_book: OrderBook<L>) -> Self {
+        let level_2_data = order_book.level_2_data();
+        Self { step_size, order_book, trade_vols: Vec::new(), transactions: Vec::new(), level_2_data, level_2_data_records: Level2DataRecords::new() }
+    }
+    /// overwrite the cached level-2 data (C19: arbitrary market data behind the arrays)
+    pub fn verif_set_level_2_data(&mut self, d: Level2Data<L>) {
+        self.level_2_data = d;
+    }
+    pub fn verif_queue_len(&self) -> usize {
+        self.transactions.len()
+    }
+    pub fn verif_book_mut(&mut self) -> &mut OrderBook<L> {
+        &mut self.order_book
+    }
+    pub fn verif_step_size(&self) -> Nanos {
+        self.step_size
+    }
+}
+
+// ------------------------------------------------------------------------------------------
+// instructions
+// ------------------------------------------------------------------------------------------
+
+#[derive(Clone, Copy)]
+pub struct Ev {
+    /// 0 = New, 1 = Cancellation, 2 = Modify
+    pub kind: u8,
+    pub id: usize,
+    pub np: Option<Price>,
+    pub nv: Option<Vol>,
+}
+
+/// an arbitrary instruction on any of the first `n_ids` orders (any status, duplicates allowed)
+pub fn gen_ev(n_ids: usize, tick: Price, kinds: u8) -> Ev {
+    let kind = any_u8();
+    assume(kind < kinds);
+    let id = any_usize();
+    assume(id < n_ids);
+    let mut np = None;
+    let mut nv = None;
+    if kind == 2 {
+        if any_bool() {
+            np = Some(g_price(true, tick));
+        }
+        if any_bool() {
+            let v = any_u32();
+            assume(v >= 1);
+            nv = Some(v);
+        }
+    }
+    Ev { kind, id, np, nv }
+}
+
+pub fn to_event(e: &Ev) -> Event<OrderId> {
+    match e.kind {
+        0 => Event::New { order_id: e.id },
+        1 => Event::Cancellation { order_id: e.id },
+        _ => Event::Modify { order_id: e.id, new_price: e.np, new_vol: e.nv },
+    }
+}
+
+pub fn ref_apply<const N: usize>(r: &mut Plain<N>, e: &Ev) {
+    match e.kind {
+        0 => ref_place(r, e.id),
+        1 => ref_cancel(r, e.id),
+        _ => ref_modify(r, e.id, e.np, e.nv),
+    }
+}
+
+/// k arbitrary prior records in every series (equal lengths: the inductive hypothesis of C11)
+pub fn gen_records<const L: usize>(env: &mut Env<L>, k: usize) -> [[u32; 4]; 2] {
+    // returns the scalar part of the prior records so that the prefix can be compared afterwards
+    let mut saved = [[0u32; 4]; 2];
+    let mut j = 0;
+    while j < k {
+        let rec: Level2Data<L> = Level2Data {
+            bid_price: any_u32(),
+            ask_price: any_u32(),
+            bid_vol: any_u32(),
+            ask_vol: any_u32(),
+            bid_price_levels: core::array::from_fn(|_| (any_u32(), any_u32())),
+            ask_price_levels: core::array::from_fn(|_| (any_u32(), any_u32())),
+        };
+        if j < 2 {
+            saved[j] = [rec.bid_price, rec.ask_price, rec.bid_vol, rec.ask_vol];
+        }
+        env.level_2_data_records.append_record(&rec);
+        env.trade_vols.push(any_u32());
+        j += 1;
+    }
+    saved
+}
+
+pub const E8: u32 = 1; // C08: batch applied exactly once each in the shuffled order at start+i
+pub const E10: u32 = 2; // C10: cache == live after the step
+pub const E11: u32 = 4; // C11: every series grew by one faithful record
+
+/// every recorded series has k+1 entries and the last one equals the live book's value
+pub fn records_faithful<const L: usize>(env: &Env<L>, k: usize) -> bool {
+    let b = &env.order_book;
+    let r = &env.level_2_data_records;
+    let n = k + 1;
+    let (bid, ask) = b.bid_ask();
+    let bl = b.bid_levels();
+    let al = b.ask_levels();
+    let mut ok = r.prices.0.len() == n && r.prices.1.len() == n && r.volumes.0.len() == n && r.volumes.1.len() == n;
+    ok &= env.trade_vols.len() == n;
+    if !ok {
+        return false;
+    }
+    ok &= r.prices.0[k] == bid && r.prices.1[k] == ask;
+    ok &= r.volumes.0[k] == b.bid_vol() && r.volumes.1[k] == b.ask_vol();
+    let mut l = 0;
+    while l < L {
+        ok &= r.volumes_at_levels.0[l].len() == n && r.volumes_at_levels.1[l].len() == n;
+        ok &= r.orders_at_levels.0[l].len() == n && r.orders_at_levels.1[l].len() == n;
+        if ok {
+            ok &= r.volumes_at_levels.0[l][k] == bl[l].0 && r.orders_at_levels.0[l][k] == bl[l].1;
+            ok &= r.volumes_at_levels.1[l][k] == al[l].0 && r.orders_at_levels.1[l][k] == al[l].1;
+        }
+        l += 1;
+    }
+    ok
+}
+
+pub fn l2_equal<const L: usize>(a: &Level2Data<L>, b: &Level2Data<L>) -> bool {
+    let mut ok = a.bid_price == b.bid_price && a.ask_price == b.ask_price && a.bid_vol == b.bid_vol && a.ask_vol == b.ask_vol;
+    let mut l = 0;
+    while l < L {
+        ok &= a.bid_price_levels[l] == b.bid_price_levels[l] && a.ask_price_levels[l] == b.ask_price_levels[l];
+        l += 1;
+    }
+    ok
+}
+
+/// valid-history assumptions for a whole batch: injected volume stays < 2^32, no active order
+/// carries the step's start time as queue time (batch <= step size in every earlier step)
+pub fn assume_batch_valid<const N: usize>(p: &Plain<N>, evs: &[Ev], nb: usize, discipline: bool) {
+    let mut total: u64 = 0;
+    let mut i = 0;
+    while i < N {
+        if i < p.n {
+            let o = entry_order(&p.e[i]);
+            if o.status == Status::New || o.status == Status::Active {
+                total += o.vol as u64;
+            }
+            if discipline && o.status == Status::Active {
+                assume(entry_key_time(&p.e[i]) < p.t);
+            }
+        }
+        i += 1;
+    }
+    let mut k = 0;
+    while k < nb {
+        if let Some(v) = evs[k].nv {
+            total += v as u64;
+        }
+        k += 1;
+    }
+    assume(total <= u32::MAX as u64);
+}
+
+/// `Env::step` on an arbitrary environment: `m` table entries, `NB` queued instructions, `k` prior
+/// records, symbolic generator words
+pub fn step_env<const N: usize, const L: usize, const NB: usize>(m: usize, k: usize, cfg: GenCfg, mask: u32, kinds: u8) {
+    let p: Plain<N> = gen_plain::<N>(m, cfg);
+    assume(p.t < (1u64 << 62));
+    let step_size = any_u64();
+    assume(step_size >= NB as u64 && step_size < (1u64 << 62));
+    let mut evs = [Ev { kind: 1, id: 0, np: None, nv: None }; NB];
+    let mut i = 0;
+    while i < NB {
+        evs[i] = gen_ev(m, p.tick, kinds);
+        i += 1;
+    }
+    assume_batch_valid(&p, &evs, NB, cfg.discipline);
+    let (book, old) = build_with_log::<N, L>(&p, cfg.ntrades);
+    let mut env: Env<L> = Env::verif_from_book(step_size, book);
+    let saved = gen_records(&mut env, k);
+    let mut i = 0;
+    while i < NB {
+        env.transactions.push(to_event(&evs[i]));
+        i += 1;
+    }
+    let mut rng = SymRng::new();
+    shuffle_words(&mut rng, NB);
+    rng.strict = true;
+    let mut rng2 = rng;
+
+    env.step(&mut rng);
+
+    // the permutation those words induce (shuffle is data independent: C15 L1)
+    let mut pi = [0usize; NB];
+    let mut i = 0;
+    while i < NB {
+        pi[i] = i;
+        i += 1;
+    }
+    pi.shuffle(&mut rng2);
+    // reference: plain replay in that order at start+i
+    let mut r = p;
+    r.trade_vol = 0;
+    let mut i = 0;
+    while i < NB {
+        r.t = p.t + i as u64;
+        ref_apply(&mut r, &evs[pi[i]]);
+        i += 1;
+    }
+    r.t = p.t + step_size;
+
+    let b = &env.order_book;
+    if mask & E8 != 0 {
+        vcheck!(env.transactions.is_empty(), "STEP.queue_empty_after_step");
+        vcheck!(b.get_time() == p.t + step_size, "STEP.clock_at_start_plus_step_size");
+        vcheck!(table_matches(b, &r), "STEP.orders_equal_plain_replay_in_shuffled_order");
+        vcheck!(new_trades_match(b, &r, cfg.ntrades), "STEP.trades_equal_plain_replay");
+        vcheck!(b.get_trade_vol() == r.trade_vol, "STEP.trade_vol_counts_only_this_step");
+        vcheck!(old_trades_unchanged(b, cfg.ntrades, &old), "STEP.old_trades_unchanged");
+        vcheck!(index_equals_reload::<N, L>(b), "INDEX.side_indexes_equal_rebuild_from_orders");
+        vcheck!(rng.calls == NB - 1 && !rng.overdrawn, "STEP.draws_exactly_the_shuffle_words");
+        vcheck!(env.trade_vols.len() == k + 1 && env.trade_vols[k] == r.trade_vol, "STEP.recorded_step_volume_is_this_steps");
+    }
+    if mask & E10 != 0 {
+        vcheck!(l2_equal(&env.level_2_data, &b.level_2_data()), "CACHE.level_2_snapshot_equals_live_book_after_step");
+    }
+    if mask & E11 != 0 {
+        vcheck!(records_faithful(&env, k), "RECORDS.one_faithful_entry_appended_to_every_series");
+        let mut same = true;
+        let mut j = 0;
+        while j < 2 {
+            if j < k {
+                let r = &env.level_2_data_records;
+                same &= r.prices.0[j] == saved[j][0] && r.prices.1[j] == saved[j][1] && r.volumes.0[j] == saved[j][2] && r.volumes.1[j] == saved[j][3];
+            }
+            j += 1;
+        }
+        vcheck!(same, "RECORDS.earlier_entries_unchanged");
+        // per-step traded volume == sum of the trades stamped within the step
+        let mut sum: u64 = 0;
+        let mut q = cfg.ntrades;
+        while q < b.get_trades().len() {
+            let t = &b.get_trades()[q];
+            if t.t >= p.t && t.t < p.t + step_size {
+                sum += t.vol as u64;
+            }
+            q += 1;
+        }
+        vcheck!(env.trade_vols.len() == k + 1 && env.trade_vols[k] as u64 == sum, "RECORDS.step_volume_is_sum_of_trades_stamped_in_step");
+    }
+    if NB == 2 {
+        vcover!(pi[0] == 1, "cover.batch_reversed");
+        vcover!(pi[0] == 0 && r.ntr >= 1, "cover.batch_in_order_with_trade");
+    }
+    core::mem::forget(env);
+}
+
+vharnesses! {
+    #[cfg_attr(kani, kani::unwind(4))]
+    fn c08_env_step_b2_m2() { step_env::<3, 2, 2>(2, 0, CFG, E8, 3) }
+    #[cfg_attr(kani, kani::unwind(4))]
+    fn c10_env_step_cache_b2_m2() { step_env::<3, 2, 2>(2, 0, CFG, E10, 3) }
+    #[cfg_attr(kani, kani::unwind(4))]
+    fn c11_env_step_records_b2_m2_k1() { step_env::<3, 2, 2>(2, 1, CFG, E11, 3) }
+    #[cfg_attr(kani, kani::unwind(4))]
+    fn probe_v1() { step_env::<3, 2, 2>(2, 0, OFF, E8, 3) }
+    #[cfg_attr(kani, kani::unwind(4))]
+    fn probe_v2() { step_env::<3, 2, 2>(2, 0, ON, E8, 1) }
+    #[cfg_attr(kani, kani::unwind(4))]
+    fn probe_v3() { step_env::<3, 2, 2>(2, 0, ON, E8, 2) }
+    #[cfg_attr(kani, kani::unwind(4))]
+    fn probe_v4() { step_env::<3, 2, 2>(1, 0, CFG, E8, 3) }
+}
